@@ -7,19 +7,21 @@ import os
 import core
 import lockstep
 
-IMPORTS = ["Base.Dec", "Model.Exec", "Model.ExecShow", "Model.StepExec", "Model.StepShow", "Model.DepExec", "Model.DepShow"]
-MODEL_VO = ["theories/Model/DepShow.vo"]
+IMPORTS = ["Base.Dec", "Model.Exec", "Model.ExecShow", "Model.StepExec", "Model.StepShow", "Model.DepExec", "Model.DepShow",
+           "Model.FileExec", "Model.FileShow"]
+MODEL_VO = ["theories/Model/DepShow.vo", "theories/Model/FileShow.vo"]
 KINDS = {
     "block": (lockstep.gen_block_case, lockstep.coq_expr, lockstep.impl_lines, 800),
     "step": (lockstep.gen_step_case, lockstep.coq_expr_x, lockstep.impl_lines_x, 3000),
     "dep": (lockstep.gen_dep_case, lockstep.coq_expr_d, lockstep.impl_lines_d, 4000),
     "cblock": (lockstep.gen_cblock_case, lockstep.coq_expr_c, lockstep.impl_lines_c, 1500),
     "cstep": (lockstep.gen_cstep_case, lockstep.coq_expr_cx, lockstep.impl_lines_cx, 4000),
+    "fexec": (lockstep.gen_fexec_case, lockstep.coq_expr_fs, lockstep.impl_lines_fs, 3000),
 }
 
 
 def has_fail(case):
-    return any(c.get("raises") for c in case["calls"]) or bool(case.get("iofault_fired"))
+    return any(c.get("raises") for c in case.get("calls", [])) or bool(case.get("iofault_fired"))
 
 
 def explore(res, kinds, n_per_kind, allow_fail=True, extra_cases=None):
@@ -55,6 +57,8 @@ def lockstep_compare(runs):
         cut = lockstep.cut_at_reraise(r) if k not in ("block", "cblock") else None
         if k == "cblock":
             d = lockstep.compare_noen(c, r, o)
+        elif k == "fexec":
+            d = lockstep.compare_lines(il, o, None)
         elif k == "cstep":
             d = lockstep.compare_noen_lines(il, o, lockstep.cut_at_reraise(lockstep.project_fs(r)))
         else:
